@@ -21,6 +21,8 @@ pub enum RepayMode {
     Plus(Uint128),
     Nothing,
     PrincipalOnly,
+    /// the quoted payback minus a given amount (e.g. the fees of the loans nested deeper down)
+    ShortBy(Uint128),
 }
 
 #[cw_serde]
@@ -81,6 +83,7 @@ fn act_msgs(deps: Deps, env: &Env, act: &Act) -> StdResult<Vec<CosmosMsg>> {
                 RepayMode::Plus(k) => q.payback_amount + *k,
                 RepayMode::Nothing => Uint128::zero(),
                 RepayMode::PrincipalOnly => *loan,
+                RepayMode::ShortBy(x) => q.payback_amount.saturating_sub(*x),
             };
             if amt.is_zero() {
                 vec![]
